@@ -137,7 +137,7 @@ def execute(p, chooser):
             det.emit("call", "addcb", (j, c))
 
             def cb(fut):
-                obs["cb_calls"].setdefault(j, []).append((c, fut._state))
+                obs["cb_calls"].setdefault(j, []).append((c, fut._state, fut._result, fut._exception))
                 det.user("cb", (j, c, 1 if raises else 0))
                 if raises:
                     raise RuntimeError("callback fault")
@@ -190,7 +190,34 @@ def execute(p, chooser):
 
         ts = [det.spawn("c%d" % k, client(k)) for k in range(p["nclients"])]
         es = [det.spawn("e%d" % k, env(k)) for k in range(p["env_threads"])]
+        ws = []
+        for wi, (widx, wkind) in enumerate(p.get("waiters", [])):
+            def waiter(widx=widx, wkind=wkind, wi=wi):
+                import concurrent.futures as cf
+                det.wait_until(lambda: any(i == widx for (i, f) in obs["futs"].values()))
+                f = [f for (i, f) in obs["futs"].values() if i == widx][0]
+                j = [j for j, (i, f2) in obs["futs"].items() if i == widx][0]
+                t0 = det.now()
+                try:
+                    if wkind == "result":
+                        r = ("value", f.result(50))
+                    elif wkind == "exception":
+                        r = ("exc", f.exception(50))
+                    elif wkind == "wait":
+                        d, nd = cf.wait([f], timeout=50)
+                        r = ("wait", f in d)
+                    else:
+                        r = ("as_completed", [x is f for x in cf.as_completed([f], timeout=50)])
+                except BaseException as e:
+                    if isinstance(e, det.Abort):
+                        raise
+                    r = ("raised", type(e).__name__, e)
+                obs.setdefault("waits", []).append((j, wkind, r, det.now(), f._state))
+            ws.append(det.spawn("w%d" % wi, waiter))
         for t in ts + es:
+            t.join()
+        obs["t_clients_done"] = det.now()
+        for t in ws:
             t.join()
         det.emit("endscen")
         with det.atomic():
